@@ -36,4 +36,11 @@ inductive SysEv where
   | load (i : BitVec 64)
 deriving Repr, DecidableEq
 
+/-- the stores of `Random::multiple`: `buf[idx] = <item number item>` (an indexing store: out of bounds panics) and
+`if let Some(slot) = buf.get_mut(idx) { *slot = <item> }` (out of bounds: nothing) -/
+inductive MulEv where
+  | store (idx item : BitVec 64)
+  | storeIf (idx item : BitVec 64)
+deriving Repr, DecidableEq
+
 end Urandom
